@@ -66,6 +66,7 @@ def search(payload):
         return round_trip({'seed': payload.get('seed', 0), 'n': 300})
     rnd = random.Random(payload.get('seed', 0))
     tried = 0
+    e_hist = ebb3_serial.EBB3()      # one object kept across the whole search: find_first must not depend on its earlier results
     for _ in range(1500):
         ports = sample_ports(rnd)
         tried += 1
@@ -74,6 +75,10 @@ def search(payload):
                 a = with_ports(ports, ebb_serial.findPort)
                 e = ebb3_serial.EBB3()
                 with_ports(ports, e.find_first)
+                with_ports(ports, e_hist.find_first)
+                if e_hist.port_name != first_oracle(ports):
+                    return {'found': True, 'input': ports, 'observed': f'find_first on an object used for {tried - 1} earlier searches: {e_hist.port_name!r}',
+                            'expected': repr(first_oracle(ports)), 'tried': tried}
                 want = first_oracle(ports)
                 if a != want or e.port_name != want:
                     return {'found': True, 'input': ports, 'observed': f'findPort {a!r}, find_first {e.port_name!r}', 'expected': repr(want), 'tried': tried}
